@@ -90,6 +90,7 @@ func Load(repo string, patterns ...string) (*Prog, error) {
 		}
 		return nil, fmt.Errorf("type-check/load errors:\n  %s", strings.Join(errs, "\n  "))
 	}
+	Current = p
 	return p, nil
 }
 
@@ -399,4 +400,148 @@ func SortedFuncs(set map[*ssa.Function]bool) []*ssa.Function {
 	}
 	sort.Slice(out, func(i, j int) bool { return FuncKey(out[i]) < FuncKey(out[j]) })
 	return out
+}
+
+var declIndex = map[*packages.Package]map[types.Object]*ast.FuncDecl{}
+
+// DeclOf returns the declaration of a function or method of the package.
+func DeclOf(pk *packages.Package, fn types.Object) *ast.FuncDecl {
+	idx := declIndex[pk]
+	if idx == nil {
+		idx = map[types.Object]*ast.FuncDecl{}
+		for _, f := range pk.Syntax {
+			for _, d := range f.Decls {
+				if fd, ok := d.(*ast.FuncDecl); ok {
+					if o := pk.TypesInfo.Defs[fd.Name]; o != nil {
+						idx[o] = fd
+					}
+				}
+			}
+		}
+		declIndex[pk] = idx
+	}
+	return idx[fn]
+}
+
+// TreeDecls returns fd followed by the same-package functions it calls
+// statically, transitively up to the given depth; fd itself (recursion) and
+// the functions named in stop are left out. Rules that look for a construct
+// "somewhere in what F does" use this, so that extracting part of F into a
+// helper does not hide the construct.
+func TreeDecls(pk *packages.Package, fd *ast.FuncDecl, depth int, stop ...string) []*ast.FuncDecl {
+	stopSet := map[string]bool{}
+	for _, s := range stop {
+		stopSet[s] = true
+	}
+	seen := map[*ast.FuncDecl]bool{fd: true}
+	out := []*ast.FuncDecl{fd}
+	var visit func(d *ast.FuncDecl, left int)
+	visit = func(d *ast.FuncDecl, left int) {
+		if left == 0 || d.Body == nil {
+			return
+		}
+		ast.Inspect(d.Body, func(n ast.Node) bool {
+			c, ok := n.(*ast.CallExpr)
+			if !ok {
+				return true
+			}
+			fn := CalleeFunc(pk.TypesInfo, c)
+			if fn == nil || fn.Pkg() != pk.Types {
+				return true
+			}
+			cd := DeclOf(pk, fn.Origin())
+			if cd == nil || cd.Body == nil || seen[cd] || stopSet[FuncName(cd)] || stopSet[cd.Name.Name] {
+				return true
+			}
+			seen[cd] = true
+			out = append(out, cd)
+			visit(cd, left-1)
+			return true
+		})
+	}
+	visit(fd, depth)
+	return out
+}
+
+// TreeBody is a synthetic block holding the bodies of TreeDecls, for rules
+// that search with ast.Inspect. It must not be used for control-flow or
+// dominance reasoning.
+func TreeBody(pk *packages.Package, fd *ast.FuncDecl, stop ...string) *ast.BlockStmt {
+	b := &ast.BlockStmt{Lbrace: fd.Body.Lbrace, Rbrace: fd.Body.Rbrace}
+	for _, d := range TreeDecls(pk, fd, 3, stop...) {
+		b.List = append(b.List, d.Body)
+	}
+	return b
+}
+
+// TreeOf returns root followed by the bodies of the same-package functions
+// called (statically, transitively up to depth) from within root: what the
+// code under root does, wherever it has been factored out to.
+func TreeOf(pk *packages.Package, root ast.Node, depth int, stop ...string) []ast.Node {
+	out := []ast.Node{root}
+	seen := map[*ast.FuncDecl]bool{}
+	stopSet := map[string]bool{}
+	for _, s := range stop {
+		stopSet[s] = true
+	}
+	var visit func(n ast.Node, left int)
+	visit = func(n ast.Node, left int) {
+		if left == 0 {
+			return
+		}
+		ast.Inspect(n, func(x ast.Node) bool {
+			c, ok := x.(*ast.CallExpr)
+			if !ok {
+				return true
+			}
+			fn := CalleeFunc(pk.TypesInfo, c)
+			if fn == nil || fn.Pkg() != pk.Types {
+				return true
+			}
+			cd := DeclOf(pk, fn.Origin())
+			if cd == nil || cd.Body == nil || seen[cd] || stopSet[cd.Name.Name] {
+				return true
+			}
+			// do not re-enter the function root itself belongs to
+			if cd.Body.Pos() <= root.Pos() && root.End() <= cd.Body.End() {
+				return true
+			}
+			seen[cd] = true
+			out = append(out, cd.Body)
+			visit(cd.Body, left-1)
+			return true
+		})
+	}
+	visit(root, depth)
+	return out
+}
+
+// InspectTree runs ast.Inspect over TreeOf(pk, root, 3).
+func InspectTree(pk *packages.Package, root ast.Node, f func(ast.Node) bool) {
+	for _, n := range TreeOf(pk, root, 3) {
+		ast.Inspect(n, f)
+	}
+}
+
+// Current is the program being analysed (one per process).
+var Current *Prog
+
+// EnclosingDecl finds the function declaration of the module that contains pos.
+func (p *Prog) EnclosingDecl(pos token.Pos) *ast.FuncDecl {
+	for path, pk := range p.ByPkg {
+		if !IsSource(path) {
+			continue
+		}
+		for _, f := range pk.Syntax {
+			if f.Pos() <= pos && pos < f.End() {
+				for _, d := range f.Decls {
+					if fd, ok := d.(*ast.FuncDecl); ok && fd.Pos() <= pos && pos < fd.End() {
+						return fd
+					}
+				}
+				return nil
+			}
+		}
+	}
+	return nil
 }
